@@ -8,7 +8,9 @@ Core Lean only (the driver `Drv/C08.lean` links against this file).
 * part B: `bluge.OfflineWriter` / `index.WriterOffline` (Insert, Batch, doMerge, Close);
 * part C: a layout is a list of segments of (document, deleted) pairs; `abs`, the searcher over a
   layout, collection statistics as sums over segments;
-* part D: `MultiSearch` = one collector over the concatenation of the per-reader match sequences.
+* part D: `MultiSearch` = one collector over the concatenation of the per-reader match sequences;
+* part E: `Snapshot.Backup` / `bluge.Reader.Backup` into a directory (any `Persist` may fail) and which snapshot
+  `OpenReader` opens.
 
 roaring bitmaps are modelled by their set semantics on strictly increasing lists (trusted base);
 the ice segment's `Merge` returns the live documents of its inputs in input order (trusted base). -/
